@@ -120,7 +120,12 @@ func (u *upgA) runFull(rule string) {
 }
 
 // chain: guard coverage before Hijack and reply statuses.
-func (u *upgA) chain() {
+func (u *upgA) chain() { u.chainRule("C12.chain", upgGuards, true) }
+
+// chainOnly checks a single guard under another rule name (shared with C13).
+func (u *upgA) chainOnly(rule, guard string) { u.chainRule(rule, []string{guard}, false) }
+
+func (u *upgA) chainRule(rule string, guards []string, extras bool) {
 	c, r := u.c, u.c.R
 	missing := map[string]string{}
 	statusBad := map[string]string{}
@@ -132,7 +137,7 @@ func (u *upgA) chain() {
 		// stop at the first event after the hijack error test: newConn or any later call is far enough
 		return callsStatic(ev, u.newConn) || (ev.Kind == core.EvDefer)
 	}
-	c.explore("C12.chain", u.upgrade, core.Opts{Unroll: 0, Stop: afterHijack}, func(p *core.Path) {
+	c.explore(rule, u.upgrade, core.Opts{Unroll: 0, Stop: afterHijack}, func(p *core.Path) {
 		hij := -1
 		for i := range p.Events {
 			if isHijackEv(&p.Events[i]) {
@@ -227,7 +232,7 @@ func (u *upgA) chain() {
 			}
 		}
 	})
-	for _, g := range upgGuards {
+	for _, g := range guards {
 		ok, why := true, "carried by every path to Hijack; refusal replies with the required status"
 		if m := missing[g]; m != "" {
 			ok, why = false, m
@@ -236,11 +241,13 @@ func (u *upgA) chain() {
 		} else if !seenFail[g] {
 			ok, why = false, "no refusal path found for this check"
 		}
-		r.Check("C12.chain", shortFn(u.upgrade), "guard:"+g, u.upgrade.Pos(), ok && nHij > 0, why)
+		r.Check(rule, shortFn(u.upgrade), "guard:"+g, u.upgrade.Pos(), ok && nHij > 0, why)
 	}
-	r.Check("C12.chain", shortFn(u.upgrade), "hijack-failure-500", u.upgrade.Pos(), okHijFail && nHijFail > 0, whyHijFail)
-	// origin fallback: CheckOrigin nil -> checkSameOrigin (C13.fallback shares this)
-	u.originFallback("C12.chain")
+	if extras {
+		r.Check(rule, shortFn(u.upgrade), "hijack-failure-500", u.upgrade.Pos(), okHijFail && nHijFail > 0, whyHijFail)
+		// origin fallback: CheckOrigin nil -> checkSameOrigin (C13.fallback shares this)
+		u.originFallback(rule)
+	}
 }
 
 // originFallback: the function called for the origin check is Upgrader.CheckOrigin, or checkSameOrigin iff that field is nil.
